@@ -70,6 +70,10 @@ NONLINEAR = [
     ('f_half(%s)', 0.5),
 ]
 
+CTX_NAMES = ['cx', 'cx1', 'c_x', 'cxx']
+CONTEXTS = ['%s**2', '-%s**2 + 1.0', '0.001*%s**3', '%s*%s', '1.0/(1.0 + %s**2)', '-%s', '3.0 - %s', '2.0 - -%s',
+            'abs(%s)', '%s/2.0', '2.0*%s', '(%s)', '10.0/(1.0 + %s*%s)', '0.5**2*%s', '1.0 -%s']
+
 USER_FUNCS = {'f_half': (lambda v: 0.5 * v), 'f_cap': (lambda v: min(v, 10.0))}
 
 
@@ -85,7 +89,7 @@ def user_funcs(spec):
 @st.composite
 def system(draw, n_sim=(1, 6), q_hi=80, q_lo=0, feedforward=None, lags=(0, 3), exos=(0, 2), consts=(0, 2),
            aliases=(0, 0), leaves=(0, 0), const_mag=5000, horizon=(1, 5), ic_prob=0, nonlinear=False,
-           gain=None, tols=('1e-6',), user_t=(False,), alias_ic=True, max_row_terms=3, time_terms=True):
+           gain=None, tols=('1e-6',), user_t=(False,), alias_ic=True, max_row_terms=3, time_terms=True, contexts=(0, 0)):
     """
     Affine (optionally mildly non-linear) system with certified sup-norm contraction factor.
     Coefficients are in hundredths; every row (leaves included) has sum |coef| <= q/100.
@@ -163,19 +167,25 @@ def system(draw, n_sim=(1, 6), q_hi=80, q_lo=0, feedforward=None, lags=(0, 3), e
     # aliases
     n_alias = draw(st.integers(*aliases))
     aliasn = []
+    near_alias = set()
     for i in range(n_alias):
         name = ALIAS_NAMES[i]
         targets = sim + lagn + exon + constn + aliasn
         tgt = draw(st.sampled_from(targets))
-        spell = draw(st.sampled_from(['%s', '%s', '+%s', ' %s ', '+ %s']))
+        # plain aliases, and a few near-aliases (negated, bracketed) that are NOT the same variable under another name
+        spell = draw(st.sampled_from(['%s', '%s', '+%s', ' %s ', '+ %s', '%s', '-%s', '(%s)', '- %s']))
         eqs.append([name, spell % tgt, 'alias'])
         lam[name] = 1.0
         aliasn.append(name)
+        if spell.strip().startswith('-') or spell.startswith('('):
+            near_alias.add(name)
     # make some simultaneous rows use the aliases instead of their targets (semantically equal systems differ textually)
     if aliasn:
         for e in eqs:
             if e[2] == 'sim' and draw(st.integers(0, 2)) == 0:
                 al = draw(st.sampled_from(aliasn))
+                if al in near_alias:
+                    continue
                 tgt = [x for x in eqs if x[0] == al][0][1].replace('+', '').strip()
                 # textual swap of one whole-name occurrence, done on a token basis by the harness lexer
                 from harness import expr as _expr
@@ -197,6 +207,17 @@ def system(draw, n_sim=(1, 6), q_hi=80, q_lo=0, feedforward=None, lags=(0, 3), e
         name = LEAF_NAMES[i]
         before = len(eqs)
         row(name, 0, sim + aliasn + leafn, q, 'leaf')
+        leafn.append(name)
+    # context leaves: one variable (preferably an alias) placed in a syntactic context where a purely textual
+    # substitution of an expression for the name would change the meaning (powers, unary minus, products, quotients)
+    for i in range(draw(st.integers(*contexts))):
+        name = CTX_NAMES[i]
+        var = draw(st.sampled_from(aliasn + aliasn + sim + lagn + constn)) if (aliasn or sim) else None
+        if var is None:
+            break
+        tmpl = draw(st.sampled_from(CONTEXTS))
+        eqs.append([name, tmpl.replace('%s', var), 'leaf'])
+        lam[name] = 0.0
         leafn.append(name)
     # exogenous
     exo = []
@@ -240,6 +261,9 @@ def system(draw, n_sim=(1, 6), q_hi=80, q_lo=0, feedforward=None, lags=(0, 3), e
         'eqsp': draw(st.sampled_from(['=', ' = ', '= ', ' =', '  =  '])),
         'comments': draw(st.booleans()),
         'maxtime_first': draw(st.booleans()),
+        # when the solver object is configured: attributes set before the text is parsed, after it, or text handed to
+        # the constructor (all three are ordinary usage; the settings are read when the solve starts)
+        'config': draw(st.sampled_from(['early', 'late', 'ctor'])),
     }
     q_eff = (gain / 100.0) if gain is not None else q / 100.0
     return {
@@ -293,20 +317,33 @@ def solve(spec, reduction=True, max_iter=None, tol_param=None, text=None, trace_
     from sfc_models.equation_solver import EquationSolver
     if text is None:
         text = render(spec)
-    es = EquationSolver(run_equation_reduction=reduction)
-    for fn, f in user_funcs(spec).items():
-        es.AddFunction(fn, f)
-    if max_iter is not None:
-        es.MaxIterations = max_iter
-    if tol_param is not None:
-        es.ParameterErrorTolerance = tol_param
-    if trace_step is not None:
-        es.TraceStep = trace_step
-    if steady:
-        es.ParameterSolveInitialSteadyState = True
-        es.ParameterInitialSteadyStateMaxTime = 60
+    config = spec.get('layout', {}).get('config', 'early')
+
+    def configure(es):
+        for fn, f in user_funcs(spec).items():
+            es.AddFunction(fn, f)
+        if max_iter is not None:
+            es.MaxIterations = max_iter
+        if tol_param is not None:
+            es.ParameterErrorTolerance = tol_param
+        if trace_step is not None:
+            es.TraceStep = trace_step
+        if steady:
+            es.ParameterSolveInitialSteadyState = True
+            es.ParameterInitialSteadyStateMaxTime = 60
+
+    es = None
     try:
-        es.ParseString(text)
+        if config == 'ctor':
+            es = EquationSolver(text, run_equation_reduction=reduction)
+            configure(es)
+        else:
+            es = EquationSolver(run_equation_reduction=reduction)
+            if config == 'early':
+                configure(es)
+            es.ParseString(text)
+            if config == 'late':
+                configure(es)
         es.SolveEquation()
     except Exception as ex:
         return type(ex).__name__, es, ex
